@@ -49,7 +49,13 @@ pub trait ChainStore: Send + Sync + Sized {
             let raw_block = packed::BlockReader::from_compatible_slice(&raw_block)
                 .expect("checked data")
                 .to_entity();
-            return Some(raw_block.into_view());
+            let block = raw_block.into_view();
+            // the freezer is indexed by height and only holds main-chain blocks: a block stored
+            // under another hash at an already frozen height (a late side-chain block) must not be
+            // answered with the main-chain block of that height; it still lives in the kv store
+            if &block.hash() == h {
+                return Some(block);
+            }
         }
         let body = self.get_block_body(h);
         let uncles = self
